@@ -329,7 +329,7 @@ def run_transfer(pid, mode, ga, gb=None):
     return [dict(r, name=f'{pid}/' + r['name']) for r in res]
 
 
-SERVES = {'reject-self': ['C01', 'C07'], 'dispatch': ['C07', 'C11', 'C03'], 'pairing': ['C07'], 'linear': ['C01', 'C02', 'C07'], 'locality': ['C01', 'C07', 'C11'],
+SERVES = {'reject-self': ['C01', 'C07'], 'dispatch': ['C07', 'C11', 'C03'], 'pairing': ['C07'], 'linear': ['C01', 'C02', 'C07', 'C03'], 'locality': ['C01', 'C07', 'C11'],
           'same-args': ['C07', 'C02'], 'frame': ['C04'], 'result-kinds': ['C07', 'C04'], 'reject-shapes': ['C07'],
           'per-well': ['C07', 'C17', 'C11', 'C03'], 'count': ['C02'], 'instructions-home': ['C07', 'C19']}
 
